@@ -107,7 +107,9 @@ def generate(prop, rng, seed, index, tier):
     maxlat = max([x or 0 for x in sink.get('lat', [0])] + [0])
     return {'format': 1, 'family': 'files', 'property': 'C17', 'seed': seed, 'index': index,
             'source': {'type': 'filenames', 'pre': names[:npre], 'order_key': order_key, 'poll': poll,
-                       'twin': rng.random() < 0.3},
+                       'twin': False if rng.random() < 0.7 else True,
+                       # a legal but non-canonical spelling of the watched directory
+                       'spelling': rng.choice([None, None, None, '/data//', '/data/./', './data/'])},
             'ops': ops, 'sink': sink, 'via_map': False,
             'tiebreak': rng.choice(['fifo', 'lifo', 'seeded']), 'tiebreak_seed': rng.randrange(1000),
             'drain': (len(names) + 3) * (maxlat + poll) + 5}
@@ -183,7 +185,8 @@ def evaluate(prop, sc, want_trace=False):
                        for a, b in _sink_spans(ev)):
                     out.probes['paused_while_a_record_was_being_handled'] = 1
     elif s['type'] == 'filenames' and not V:
-        names = list(s.get('pre', [])) + [o['name'] for o in sc['ops'] if o['op'] == 'create' and not o.get('skip')]
+        spell = (lambda n: n.replace('/data/', s['spelling'], 1)) if s.get('spelling') else (lambda n: n)
+        names = [spell(n) for n in list(s.get('pre', [])) + [o['name'] for o in sc['ops'] if o['op'] == 'create' and not o.get('skip')]]
         seen = set()
         group = []
         listing = None
@@ -214,7 +217,7 @@ def evaluate(prop, sc, want_trace=False):
                 seen.add(e[4])
         if not V and ended and status == 'ok':
             got = [v for _, v in emitted]
-            gone = set(o['name'] for o in sc['ops'] if o['op'] == 'delete' and not o.get('skip'))
+            gone = set(spell(o['name']) for o in sc['ops'] if o['op'] == 'delete' and not o.get('skip'))
             # (a path deleted again before any poll listed it is never owed; what each listing owes is judged above)
             if gone:
                 if not (set(names) - gone <= set(got) <= set(names)) or len(got) != len(set(got)):
@@ -225,7 +228,7 @@ def evaluate(prop, sc, want_trace=False):
                                    'filenames emitted %r, paths that exist: %r' % (got, sorted(set(names))), node_op='filenames'))
         if not V and s.get('twin') and ended and status == 'ok':
             got2 = [e[3] for e in ev if e[2] == 'twin_emit']
-            gone = set(o['name'] for o in sc['ops'] if o['op'] == 'delete' and not o.get('skip'))
+            gone = set(spell(o['name']) for o in sc['ops'] if o['op'] == 'delete' and not o.get('skip'))
             if not (set(names) - gone <= set(got2) <= set(names)) or len(got2) != len(set(got2)):
                 V.append(Violation('C17', 'C17.filenames', len(ev) - 1,
                                    'a second filenames source watching the same directory emitted %r, paths created: %r (deleted: %r)'
@@ -240,6 +243,8 @@ def evaluate(prop, sc, want_trace=False):
                 out.probes['several_new_paths_in_one_poll'] = 1
             if any(o['op'] == 'delete' for o in sc['ops']):
                 out.probes['paths_deleted_while_watching'] = 1
+            if s.get('spelling'):
+                out.probes['non_canonical_spelling_of_the_directory'] = 1
     nshort = sum(1 for e in ev if e[2] == 'cycle' and e[3] == 'read' and sc['source'].get('short') and e[4])
     if nshort:
         out.faults['short_read'] = nshort
